@@ -75,6 +75,23 @@ CHECKS = {
    note="Trusted: Lean kernel, standard axioms, harness. Partial: termination / memory of the real LR driver and of CPython's regex engine are runtime facts (20 s per-case budget, "
         "inputs up to 20-60 k characters); SLY's LALR construction and re are modelled. Three parser defects were repaired first (fix: 24b763b 1659103 dc4172f).",
    design="§6 C10", technique="Lean 4 proof (totality: fuel sufficiency + action type-safety by induction on fuel) + tie theorems + exhaustive/seeded differential correspondence"),
+ "C06": dict(
+   text="Lean 4: character-level scanner model of all 31 lexer rules (first match in declaration order, re.I, CPython's Unicode classes from brute-forced "
+        "tables) + model of py_val (int, bool, str, date, time, datetime, guid, duration in exact microseconds), run against the real lexer/parser and "
+        "py_val on per-kind ABNF spellings with field boundaries, all duration sign/part combinations, arbitrary string contents, 45 identifiers "
+        "(keyword-prefixed, 128/129 characters, namespaces) in several contexts, and all strings of <= 3 atoms over a boundary alphabet; lexer rules "
+        "tied to grammar.py by tie theorems; char-level lemmas (arbitrary string content survives quoting+lexing; lexAll(render ts) = ts) in Props/C06Lex.lean when present.",
+   note="Trusted: Lean kernel, standard axioms, harness; the meaning of each spelling is known to the generator by construction. Modelled, not verified: CPython re, "
+        "datetime.fromisoformat, dateutil.isoparse, float(); Duration.py_val in IEEE doubles is modelled exactly (valid for small components). fix: a34c246 (keyword prefixes).",
+   design="§6 C06", technique="Lean 4 scanner model + per-token lemmas + tie theorems on the extracted rules + exhaustive short-string differential correspondence"),
+ "C19": dict(
+   text="Lean 4: `layout_invariant` - for EVERY printable tree any two placements of optional whitespace and either parenthesisation parse to the "
+        "same tree (from parse_printToks, which quantifies over all styles); bool_value_case; executed: every accepted filter x whitespace "
+        "re-layouts (10 kinds of runs, BWS insertion) x keyword case masks is parsed by model and real parser (exact agreement) and judged on the real "
+        "code by normalised-AST equality and by equality of all six backends' outputs.",
+   note="Trusted: Lean kernel, standard axioms, harness. Partial: arbitrary whitespace runs / keyword case at character level rest on the lexer lemmas of Props/C06Lex.lean and the "
+        "correspondence run; backend equality is executed, not proved. fix: 7c0cf2f (TRUE on SQLAlchemy), 531c925 (lower-case t/z).",
+   design="§6 C19", technique="Lean 4 proof (style-generic round trip) + differential correspondence on re-spelled filters + executed backend comparison"),
 }
 NOT_APPLICABLE = {}
 
